@@ -4,6 +4,7 @@ import (
 	"bufio"
 	"bytes"
 	"compress/gzip"
+	"encoding/hex"
 	"errors"
 	"io"
 )
@@ -75,6 +76,31 @@ func (d *tuDest) UnmarshalText(b []byte) error {
 	d.calls++
 	d.stored = append([]byte(nil), b...)
 	return nil
+}
+
+// Destinations whose kind is string / []byte and which ALSO implement the unmarshaler interface, with a
+// stored form that is not the identity: what they hold tells whether the interface was honoured.
+type hexText string
+
+func (h *hexText) UnmarshalText(b []byte) error { *h = hexText(hex.EncodeToString(b)); return nil }
+
+type hexBin string
+
+func (h *hexBin) UnmarshalBinary(b []byte) error { *h = hexBin(hex.EncodeToString(b)); return nil }
+
+type hexBytes []byte
+
+func (h *hexBytes) UnmarshalBinary(b []byte) error {
+	*h = hexBytes(hex.EncodeToString(b))
+	return nil
+}
+
+func unhex(stored string) []byte {
+	b, err := hex.DecodeString(stored)
+	if err != nil {
+		return []byte("<stored without the destination's unmarshaler>:" + stored)
+	}
+	return b
 }
 
 // ---- sources that are interfaces ----
@@ -168,11 +194,11 @@ func clone(b []byte) []byte {
 }
 
 // kinds the byte-stream consumer documents, and kinds it does not.
-var bsDestSupported = []string{"readerfrom", "writer", "buffer", "binunm", "*string", "*[]byte", "*named-string", "*named-bytes", "*iface-string", "*iface-bytes", "bufio-writer", "gzip-writer"}
+var bsDestSupported = []string{"readerfrom", "writer", "buffer", "binunm", "*string", "*[]byte", "*named-string", "*named-bytes", "*iface-string", "*iface-bytes", "bufio-writer", "gzip-writer", "binunm-strkind", "binunm-byteskind"}
 var bsDestOther = []string{"nil", "nil-*string", "nil-*[]byte", "nil-*named-string", "nil-*named-bytes", "nil-*struct", "nil-*iface",
 	"string", "[]byte", "int", "*int", "*struct", "*iface-nil", "*iface-int", "**string", "**[]byte", "map", "*map", "chan", "func", "*[]string", "*[]uint16", "*[4]byte"}
 
-var textDestSupported = []string{"textunm", "*string", "*named-string"}
+var textDestSupported = []string{"textunm", "*string", "*named-string", "textunm-strkind"}
 var textDestOther = []string{"nil", "nil-*string", "nil-*named-string", "nil-*struct", "string", "int", "*int", "*struct", "*[]byte", "*iface-string", "**string", "map", "chan", "func"}
 
 func isIn(l []string, s string) bool {
@@ -226,6 +252,15 @@ func mkDest(codec, kind string, pre []byte, o Script, bufsz int) (d dest, ok boo
 	case "textunm":
 		x := &tuDest{}
 		d.v, d.get = x, func() []byte { return x.stored }
+	case "textunm-strkind":
+		x := new(hexText)
+		d.v, d.get = x, func() []byte { return unhex(string(*x)) }
+	case "binunm-strkind":
+		x := new(hexBin)
+		d.v, d.get = x, func() []byte { return unhex(string(*x)) }
+	case "binunm-byteskind":
+		x := new(hexBytes)
+		d.v, d.get = x, func() []byte { return unhex(string(*x)) }
 	case "*string":
 		x := new(string)
 		*x = string(pre)
